@@ -376,6 +376,28 @@ def ob_fill(ctx, res):
     if "Some(_) => next" not in t:
         res.fail("fill/errors", fn, "errors of the input stream must be passed through")
         return
+    # constructors: where filling starts and ends
+    for cname, want in (("fill", {"last_val": "None", "expected_end": "None", "last_end": "0"}),
+                        ("fill_start_to_end", {"last_val": "None", "expected_end": "Some(p2)", "last_end": "p1"})):
+        cf = ctx.ast.fn(FI, cname)
+        sl = [n for n in walk_no_nested_fn(cf.body) if n.k == "struct" and n["path"].endswith("FillValues")]
+        if len(sl) != 1:
+            res.fail("fill/ctor/%s" % cname, cf, "expected one FillValues literal")
+            return
+        got = {}
+        for x in sl[0]["fields"]:
+            e = x["e"] if not x.get("shorthand") else None
+            if e is None:
+                continue
+            t_ = up(strip(e))
+            for i, (pn, _) in enumerate(cf.params):
+                t_ = re.sub(r"\b%s\b" % re.escape(pn), "p%d" % i, t_) if pn else t_
+            got[x["name"]] = t_
+        bad = {k: (got.get(k), v) for k, v in want.items() if got.get(k) != v}
+        if bad:
+            res.fail("fill/ctor/%s" % cname, sl[0], "%s must start with %s; differs in %s" % (cname, want, bad))
+            return
+    res.ok(fn, "fill() starts at 0 with no expected end; fill_start_to_end(iter,start,end) starts at `start` and pads to `end`; nothing held back initially")
     res.ok(fn, "fill: held value returned unchanged; gap -> {last_end, next.start, 0.0} then the value; no gap -> value unchanged; trailing filler to expected_end; errors pass through")
 
 
